@@ -120,6 +120,9 @@ EXTRA_TEXT = {
     "C14": " C14.names (see C10). P.compile-history.",
     "C20": " C20.parse.history: with the PLY automaton cut, Parse(t1); Parse(t2) on one parser converts the offsets of t2 with the line table of t2 (every order of three of four texts with different line structure); bounded end-to-end part on one parser / one Compiler.",
 }
+GEN_TEXT = " E2E.generated.* (sampled, reported as bounded, never counted as proved): a seeded generator (contracts/gen_c.py) writes scalar-core programs -- helpers, globals, arrays, nested loops with break/continue, all operator forms -- and each is compiled by the real compiler and run by the real VM on SYMBOLIC inputs against the reference interpreter, so each holds for all inputs of its program; 64 programs in the quick tier, 1600 more in the thorough tier."
+for _k in ("C01", "C02", "C03", "C05", "C08", "C14"):
+    EXTRA_TEXT[_k] = EXTRA_TEXT.get(_k, "") + GEN_TEXT
 for _k, _v in EXTRA_TEXT.items():
     CLAIMED[_k]["text"] += _v
 
